@@ -165,6 +165,12 @@ static void Array_Assign(var self, var obj) {
 
   var type = implements_method(obj, Iter, iter_type) ? iter_type(obj) : Ref;
   
+  /* a source that can neither be indexed nor iterated is refused first */
+  if (not (implements_method(obj, Len, len)
+  and implements_method(obj, Get, get))) {
+    method_at_offset(obj, Iter, offsetof(struct Iter, iter_init), "iter_init");
+  }
+  
   Array_Clear(self);
   
   a->type = type;
